@@ -143,7 +143,7 @@ func runManagedStatus(o checks.Opts) *report.Report {
 	rep := report.New("C19", "managed-object-status")
 	shapes := statusShapes(!o.Quick())
 	rep.Bounds["status_shapes"] = len(shapes)
-	rep.Rule = "a managed Widget (controlled by the ObjectSet from its creation, or pre-existing with that status and adopted under collisionProtection None; condition mappings Ready / Progressing / Degraded => my/..., condition probe Ready=True) carries every status shape of the grammar {absent, null, \"\", \"x\", 0, 1.5, true, [], [s], {}, {k:s}} to depth 2, conditions lists with each condition field taking every base shape; three consecutive real ObjectSet passes (active and paused) and ObjectSetPhase passes per shape in one operator process under recover() (the owner's persisted status, mapped conditions included, is the next pass's input), plus lists of several well-formed conditions of which two are mapped; plus availability probe specifications the schema accepts (CEL rules valid / syntax error / non-boolean / run-time error with and without message, fieldsEqual paths, condition probes, empty probes and selectors), each reconciled three times in one long-lived operator process; distinct = persisted Available status/reason or error class"
+	rep.Rule = "a managed Widget (controlled by the ObjectSet from its creation, or pre-existing with that status and adopted under collisionProtection None, or pre-existing under another controller while the owner names previous revisions that no longer exist; condition mappings Ready / Progressing / Degraded => my/..., condition probe Ready=True) carries every status shape of the grammar {absent, null, \"\", \"x\", 0, 1.5, true, [], [s], {}, {k:s}} to depth 2, conditions lists with each condition field taking every base shape; three consecutive real ObjectSet passes (active and paused) and ObjectSetPhase passes per shape in one operator process under recover() (the owner's persisted status, mapped conditions included, is the next pass's input), plus lists of several well-formed conditions of which two are mapped; plus availability probe specifications the schema accepts (CEL rules valid / syntax error / non-boolean / run-time error with and without message, fieldsEqual paths, condition probes, empty probes and selectors), each reconciled three times in one long-lived operator process; distinct = persisted Available status/reason or error class"
 	// several conditions of which two are mapped, in every order, alone and next to an unmapped one
 	cond := func(t, st string) map[string]any {
 		return map[string]any{"type": t, "status": st, "reason": "Ok", "message": "fine", "observedGeneration": int64(1), "lastTransitionTime": "2026-01-01T00:00:00Z"}
@@ -166,16 +166,26 @@ func runManagedStatus(o checks.Opts) *report.Report {
 		if o.Shards > 1 && i%o.Shards != o.Shard {
 			continue
 		}
-		for _, mode := range []string{"objectset", "objectset-paused", "phase", "objectset-adopting", "phase-adopting"} {
+		for _, mode := range []string{"objectset", "objectset-paused", "phase", "objectset-adopting", "phase-adopting", "objectset-dangling-previous", "phase-dangling-previous"} {
 			w := osw.NewWorld()
 			w.LongLived()
 			obj := world.Obj("Widget", "", "a", map[string]any{"x": int64(1)})
 			oso := corev1alpha1.ObjectSetObject{Object: *obj, ConditionMappings: []corev1alpha1.ConditionMapping{{SourceType: "Ready", DestinationType: "my/Ready"}, {SourceType: "Progressing", DestinationType: "my/Progressing"}, {SourceType: "Degraded", DestinationType: "my/Degraded"}}}
-			adopting := strings.HasSuffix(mode, "-adopting")
+			dangling := strings.HasSuffix(mode, "-dangling-previous")
+			adopting := strings.HasSuffix(mode, "-adopting") || dangling
 			if adopting {
 				// the object is already there, status and all, before the owner's first pass
 				oso.CollisionProtection = corev1alpha1.CollisionProtectionNone
+				if dangling {
+					// ... under another controller, while the owner names a previous revision that
+					// no longer exists (pruned by the history limit; the schema accepts any name)
+					oso.CollisionProtection = corev1alpha1.CollisionProtectionPrevent
+				}
 				pre := world.Obj("Widget", world.NS, "a", map[string]any{"x": int64(1)})
+				if dangling {
+					t := true
+					pre.SetOwnerReferences([]metav1.OwnerReference{{APIVersion: "v1", Kind: "ConfigMap", Name: "someone", UID: "uid-someone", Controller: &t}})
+				}
 				if sh.Set {
 					pre.Object["status"] = runtime.DeepCopyJSONValue(sh.V)
 				}
@@ -185,12 +195,24 @@ func runManagedStatus(o checks.Opts) *report.Report {
 			var ownKey kmodel.Key
 			switch {
 			case strings.HasPrefix(mode, "phase"):
-				w.MustCreate(&corev1alpha1.ObjectSetPhase{ObjectMeta: metav1.ObjectMeta{Name: "r1", Namespace: world.NS, Labels: map[string]string{corev1alpha1.ObjectSetPhaseClassLabel: world.PhaseClass}},
-					Spec: corev1alpha1.ObjectSetPhaseSpec{Revision: 1, Objects: []corev1alpha1.ObjectSetObject{oso}, AvailabilityProbes: world.StdProbes()}})
+				ph := &corev1alpha1.ObjectSetPhase{ObjectMeta: metav1.ObjectMeta{Name: "r1", Namespace: world.NS, Labels: map[string]string{corev1alpha1.ObjectSetPhaseClassLabel: world.PhaseClass}},
+					Spec: corev1alpha1.ObjectSetPhaseSpec{Revision: 1, Objects: []corev1alpha1.ObjectSetObject{oso}, AvailabilityProbes: world.StdProbes()}}
+				if dangling {
+					ph.Spec.Revision = 3
+					ph.Spec.Previous = []corev1alpha1.PreviousRevisionReference{{Name: "gone-1"}, {Name: "gone-2"}}
+				}
+				w.MustCreate(ph)
 				ownKey = world.PKOKey("ObjectSetPhase", world.NS, "r1")
 			default:
-				os := world.NewObjectSet("r1", []world.PhaseSpec{{Name: "p1", Objects: []corev1alpha1.ObjectSetObject{oso}}}, world.StdProbes())
+				var prev []string
+				if dangling {
+					prev = []string{"gone-1", "gone-2"}
+				}
+				os := world.NewObjectSet("r1", []world.PhaseSpec{{Name: "p1", Objects: []corev1alpha1.ObjectSetObject{oso}}}, world.StdProbes(), prev...)
 				w.MustCreate(os)
+				if dangling {
+					_ = w.SetStatus(osw.OSKey("r1"), map[string]any{"revision": int64(3)})
+				}
 				ownKey = osw.OSKey("r1")
 			}
 			ctrl := world.CtrlObjectSet
